@@ -28,6 +28,7 @@ import (
 	"math/rand"
 	"os"
 	"path/filepath"
+	"runtime/debug"
 	"sort"
 	"strings"
 	"sync"
@@ -62,6 +63,12 @@ type runStats struct {
 	StaleOK      uint64            `json:"observations_of_a_best_already_replaced_on_disk"`
 	TraceLines   int               `json:"trace_lines"`
 	Diverged     bool              `json:"diverged_from_reference,omitempty"`
+	OwnBlocks    int               `json:"blocks_packed_between_stream_blocks_and_at_the_end"`
+	StaleBlocks  int               `json:"blocks_packed_on_a_stale_flow"`
+	PackedTxs    int               `json:"pool_txs_packed"`
+	WholeWalks   uint64            `json:"whole_state_walks"`
+	JustObs      uint64            `json:"justified_observations"`
+	NextObs      uint64            `json:"next_revision_requests"`
 	Quiesce      map[string]any    `json:"quiescence,omitempty"`
 	Violations   []violation       `json:"violations,omitempty"`
 }
@@ -85,6 +92,14 @@ func main() {
 	traceRuns := flag.Int("traceruns", 0, "write only this many runs into the trace (0 = all)")
 	batch := flag.Int("batch", 400, "queries of the read-only batch at quiescence")
 	flag.Parse()
+	defer func() {
+		// a panic that reaches main comes from the harness (must(), stream construction, reference run): real code
+		// runs under recover() in the importer and reader goroutines
+		if x := recover(); x != nil {
+			fmt.Printf("HARNESS-ERROR panic in the driver's own code: %v\n%s\n", x, debug.Stack())
+			os.Exit(3)
+		}
+	}()
 	must(os.MkdirAll(*out, 0o755))
 	if *nReaders > len(kinds) {
 		*nReaders = len(kinds)
@@ -105,13 +120,14 @@ func main() {
 	written, writtenViol := 0, 0
 	for s := 0; s < *streams; s++ {
 		sseed := *seed*1000 + int64(s)
-		w := buildStream(sseed, *blocks)
+		w := buildStream(sseed, *blocks, s%3 == 1) // every third stream (the 2nd, 5th, ..) runs proof of stake
 		w.propose = *propose
 		must(os.MkdirAll(filepath.Join(tmp, fmt.Sprintf("s%d-dry", s)), 0o755))
 		if err := w.addLateBranch(filepath.Join(tmp, fmt.Sprintf("s%d-dry", s))); err != nil {
 			fmt.Println("HARNESS-ERROR", err)
 			os.Exit(3)
 		}
+		w.planPacking()
 		if err := w.reference(filepath.Join(tmp, fmt.Sprintf("s%d", s))); err != nil {
 			if w.importsWithoutCaches(filepath.Join(tmp, fmt.Sprintf("s%d", s))) {
 				// a deterministic deviation of the real code: the stream is valid for the node without muxdb caches
@@ -268,6 +284,7 @@ func (w *world) concurrentRun(si, ri int, dir string, nReaders, tracecap int, na
 		}
 	}
 	st.Proposed = w.propose
+	st.OwnBlocks, st.StaleBlocks, st.PackedTxs = rc.ownBlocks, rc.staleBlocks, rc.packedTxs
 	if len(rc.failures) == 0 {
 		best, fin := n.Repo.BestBlockSummary().Header.ID(), n.BFT.Finalized()
 		// first import whose outcome differs from the node without readers
@@ -312,7 +329,8 @@ func (w *world) concurrentRun(si, ri int, dir string, nReaders, tracecap int, na
 		}
 		ge, gt, err := nodecheck.DumpLogDB(n.LogDB)
 		if err != nil {
-			add("logdb-unreadable", err.Error(), nil)
+			fmt.Println("HARNESS-ERROR log db dump failed:", err) // sqlite / environment trouble, not an observation on thor
+			os.Exit(3)
 		} else if st.Diverged {
 			// another canonical chain: its logs differ by construction
 		} else if d := nodecheck.DiffRows(w.ref.events, ge) + nodecheck.DiffRows(w.ref.transfers, gt); d != "" {
@@ -339,6 +357,9 @@ func (w *world) concurrentRun(si, ri int, dir string, nReaders, tracecap int, na
 		st.Reads += r.nReads
 		st.Raced += r.nRaced
 		st.APICalls += r.apiCalls
+		st.WholeWalks += r.nWalks
+		st.JustObs += r.nJust
+		st.NextObs += r.nNext
 		st.API4xx += r.api4xx
 		for p, c := range r.byPhase {
 			st.ByPhase[phaseNames[p]] += c
@@ -391,7 +412,8 @@ func (w *world) quiescence(rc *runCtx, api *apiEnv, batch int) (map[string]any, 
 	d0, l0 := n.KV.Digest(), n.KV.Len()
 	e0, t0, err := nodecheck.DumpLogDB(n.LogDB)
 	if err != nil {
-		return nil, []violation{{Sig: "logdb-unreadable", What: err.Error()}}
+		fmt.Println("HARNESS-ERROR log db dump failed:", err)
+		os.Exit(3)
 	}
 	var fw []foreignWrite
 	n.KV.OnWrite = func(idx int, b *kvrec.Batch) {
@@ -400,9 +422,15 @@ func (w *world) quiescence(rc *runCtx, api *apiEnv, batch int) (map[string]any, 
 	stopped := &runCtx{w: w, node: n}
 	q := &reader{id: 99, kind: "api", rc: stopped, w: w, api: api, rng: rand.New(rand.NewSource(w.seed + 4242)),
 		distinct: map[thor.Bytes32]bool{}, lastFin: n.BFT.Finalized(), stride: 1, capacity: 1 << 30}
+	isTail := map[thor.Bytes32]bool{}
+	for _, b := range w.tail {
+		isTail[b.Header().ID()] = true
+	}
 	for _, id := range w.order { // every stored block is a revision to query
-		q.observed = append(q.observed, id)
-		q.distinct[id] = true
+		if !isTail[id] {
+			q.observed = append(q.observed, id)
+			q.distinct[id] = true
+		}
 	}
 	sims := 0
 	for i := 0; i < batch; i++ {
@@ -422,7 +450,8 @@ func (w *world) quiescence(rc *runCtx, api *apiEnv, batch int) (map[string]any, 
 	d1, l1 := n.KV.Digest(), n.KV.Len()
 	e1, t1, err := nodecheck.DumpLogDB(n.LogDB)
 	if err != nil {
-		vio = append(vio, violation{Sig: "logdb-unreadable", What: err.Error()})
+		fmt.Println("HARNESS-ERROR log db dump failed:", err)
+		os.Exit(3)
 	}
 	if d0 != d1 || l0 != l1 {
 		classes := map[string]bool{}
@@ -440,7 +469,43 @@ func (w *world) quiescence(rc *runCtx, api *apiEnv, batch int) (map[string]any, 
 		vio = append(vio, violation{Sig: "query-wrote-to-logdb", What: "read-only queries at quiescence changed the log db: " + d, Reader: "quiescence"})
 	}
 	vio = append(vio, q.viol...)
-	return map[string]any{"queries": batch, "call_simulations": sims, "digest": d1, "writes": l1, "log_rows": len(e1) + len(t1), "api_4xx": q.api4xx}, vio
+	if j, err := n.BFT.Justified(); err != nil || j != w.ref.justified {
+		vio = append(vio, violation{Sig: "justified-differs-from-reference", Reader: "quiescence",
+			What: fmt.Sprintf("at quiescence Justified() = %s (%v), the node without readers has %s", short(j), err, short(w.ref.justified))})
+	}
+	// in-memory state (repository / engine / muxdb caches) is invisible to the digest: import a tail of the trunk across
+	// two more epochs NOW and compare with the node that never answered a query
+	tailCtx := &runCtx{w: w, node: n}
+	for _, blk := range w.tail {
+		tailCtx.deliver(blk)
+	}
+	tailOK := len(tailCtx.failures) == 0
+	if !tailOK {
+		vio = append(vio, violation{Sig: "tail-import-differs-after-queries", Reader: "quiescence", What: "after the query batch: " + tailCtx.failures[0]})
+	} else if tr := w.ref.tail; tr != nil {
+		best, fin := n.Repo.BestBlockSummary().Header.ID(), n.BFT.Finalized()
+		j, _ := n.BFT.Justified()
+		te, tt, err := nodecheck.DumpLogDB(n.LogDB)
+		if err != nil {
+			fmt.Println("HARNESS-ERROR log db dump failed:", err)
+			os.Exit(3)
+		}
+		switch {
+		case best != tr.best || fin != tr.fin || j != tr.justified:
+			tailOK = false
+			vio = append(vio, violation{Sig: "tail-import-differs-after-queries", Reader: "quiescence",
+				What: fmt.Sprintf("after the query batch and %d more blocks: best %s finalized %s justified %s; the node that never answered a query: %s / %s / %s",
+					len(w.tail), short(best), short(fin), short(j), short(tr.best), short(tr.fin), short(tr.justified))})
+		case n.KV.Digest() != tr.digest:
+			tailOK = false
+			vio = append(vio, violation{Sig: "tail-import-differs-after-queries", Reader: "quiescence",
+				What: fmt.Sprintf("after the query batch and %d more blocks the store digest %s differs from the node that never answered a query (%s)", len(w.tail), n.KV.Digest(), tr.digest)})
+		case nodecheck.DiffRows(tr.events, te)+nodecheck.DiffRows(tr.transfers, tt) != "":
+			tailOK = false
+			vio = append(vio, violation{Sig: "tail-import-differs-after-queries", Reader: "quiescence", What: "log db after the tail differs: " + nodecheck.DiffRows(tr.events, te) + nodecheck.DiffRows(tr.transfers, tt)})
+		}
+	}
+	return map[string]any{"tail_blocks": len(w.tail), "tail_equals_reference": tailOK, "queries": batch, "call_simulations": sims, "digest": d1, "writes": l1, "log_rows": len(e1) + len(t1), "api_4xx": q.api4xx}, vio
 }
 
 // traceOf merges importer events and the kept reader groups by stamp.
